@@ -23,6 +23,11 @@ func signaturePostProvided(
 			signatureV.SignatureValue.Text != ""
 	}
 }
+// isXsTrue reports whether an xs:boolean attribute value is true ("true" or "1")
+func isXsTrue(value string) bool {
+	return value == "true" || value == "1"
+}
+
 func signaturePostVerificationNecessary(
 	idpMetadataF func() *md.IDPSSODescriptorType,
 	spMetadataF func() *md.EntityDescriptorType,
@@ -33,8 +38,8 @@ func signaturePostVerificationNecessary(
 		spMeta := spMetadataF()
 		idpMeta := idpMetadataF()
 
-		return ((spMeta == nil || spMeta.SPSSODescriptor == nil || spMeta.SPSSODescriptor.AuthnRequestsSigned == "true") ||
-			(idpMeta == nil || idpMeta.WantAuthnRequestsSigned == "true") ||
+		return ((spMeta == nil || spMeta.SPSSODescriptor == nil || isXsTrue(spMeta.SPSSODescriptor.AuthnRequestsSigned)) ||
+			(idpMeta == nil || isXsTrue(idpMeta.WantAuthnRequestsSigned)) ||
 			signaturePostProvided(signatureF)()) &&
 			protocolBinding() == PostBinding
 	}
